@@ -200,8 +200,9 @@ def run_harness(module, program, out_path, pkg="vmh", release=False, timeout=900
             all_events += events
             nxt = bad + 1
         start = nxt
-        if crashes > 200:
-            raise ToolError("the harness died more than 200 times")
+        if crashes >= 25:
+            log("[harness] the process died %d times; the rest of this program is not executed (violations are already recorded)" % crashes)
+            break
     return all_events
 
 
